@@ -23,6 +23,7 @@ META = {
     "assumptions": ["user Drop impls of T do not call back into the same observable"],
 }
 META["explanation"] += ' R03.2 treats Arc::try_unwrap as racy (two concurrent last releases can both fail; only Arc::into_inner is atomic); R19.6 / R19.7 are evaluated here: every owner handle releases its share exactly once and no field of a live handle is replaced (clone_from / mem::replace / assignment).'
+META["explanation"] += ' The eyeball poll typestate incl. re-arm pairing (R02.7) is evaluated here: polling again after the end answers None again.'
 
 
 def run(ctx):
@@ -91,6 +92,13 @@ def run(ctx):
         c02.r02_5(ctx, wakes[0])
     # "the last owner": every owner handle releases its share of the owner counter exactly once, and the fields of a live
     # handle are never replaced (an overwritten handle never releases its share, so nobody is ever "last")
+    # "and always once the last one is gone": polling again after the end answers None again - the poll paths re-arm what
+    # they completed on every path (also on the closed path) and never return Pending out of thin air
+    from . import groups
+    if not getattr(ctx, "_in_typestate", False):
+        ctx._in_typestate = True
+        groups.eyeball_poll_typestate(ctx)
+        ctx._in_typestate = False
     from . import c19
     counter = owner_counter_field(F)
     if counter is not None:
